@@ -52,6 +52,16 @@ CLAIMED["C03"] = dict(
          "2e-5 relative for adaptive solvers; no exact Heun claim for explicit-t terms.",
     design_ref="DESIGN.md §4 C03")
 
+CLAIMED["C05"] = dict(
+    technique="Hypothesis-generated expression ASTs rendered in syntactic variants; differential against an own AST "
+              "evaluator on both evaluation paths (eval_node and generated code)",
+    text="Every generated expression is rendered in three syntactic variants (spacing, ^ vs **, parenthesisation, "
+         "number formats, both derivative notations), evaluated by ExpressionParser+eval_node and by a compiled "
+         "one-equation operator at several argument assignments, and compared with the value its arithmetic denotes.",
+    note="Real-valued scalar expressions; functions maxi/mini/round and complex constants not generated; tolerance "
+         "1e-9*M+1e-12.",
+    design_ref="DESIGN.md §4 C05")
+
 NOT_YET = {}
 
 
